@@ -425,6 +425,10 @@ O(id='ber_skip_length.b6', props=['C03', 'C04', 'C05', 'C15'], kind='bounded', e
   unwind=8, cbmc=['--unwindset', 'ber_skip_length:5'], bound='every input of at most 6 octets and every cut point; nesting depth <= 4 (recursion unwound with unwinding assertions)',
   trusted=['ASN__STACK_OVERFLOW_CHECK evaluated with max_stack_size 0 (disabled)'], min_props=30, timeout=900, **BL)
 
+# ---------------------------------------------------------------- C06: SET OF member ordering
+O(id='_el_buf_cmp', props=['C06'], kind='bounded', entry='h_el_buf_cmp', harness='harness/h_el_buf_cmp.c', units=[SK + 'constr_SET_OF.c'],
+  functions=['_el_buf_cmp'], unwind=8, bound='every triple of encoded members of at most 4 octets with 0..7 unused bits', min_props=30, timeout=600)
+
 UNVERIFIED = {
  'C07': ['asn_encode_to_buffer / asn_encode_to_new_buffer / uper_encode_to_buffer / uper_encode_to_new_buffer with a UPER type encoder: obligations exist (tier experimental) but do not discharge (symbolic-length memcpy of the 32-octet bit scratch space runs out of memory); asn_encode with UPER is covered',
          'every constructed / generated type encoder is assumed to follow the operation-slot convention enumerated by the stub encoder',
